@@ -7,12 +7,13 @@ from vlib import REPO
 PKGS = ["./internal/smtpconn/pool/"]
 POOL = "internal/smtpconn/pool/pool.go"
 FN = {"CleanUp": "c", "Get": "g", "Return": "r", "Close": "s"}
-# synchronisation points the model was written for: (function, kind) -> how many
+# ordered synchronisation skeleton the model (Model/Pool.lean) was written for: per function, the kinds of
+# the points in source order (lock acquisition, map-range iteration, close, drain receive, select, go, stop send)
 EXPECT = {
-    ("c", "lock"): 1, ("c", "iter"): 1, ("c", "close"): 1, ("c", "drain"): 1, ("c", "go"): 1,
-    ("g", "lock"): 1, ("g", "close"): 1, ("g", "drain"): 1, ("g", "sel"): 1, ("g", "go"): 3,
-    ("r", "lock"): 1, ("r", "iter"): 1, ("r", "close"): 1, ("r", "drain"): 1, ("r", "sel"): 1, ("r", "go"): 1,
-    ("s", "stop"): 1, ("s", "lock"): 1, ("s", "iter"): 1, ("s", "close"): 1, ("s", "drain"): 1,
+    "c": ["lock", "iter", "close", "drain", "go"],
+    "g": ["lock", "close", "drain", "go", "sel", "go", "go"],
+    "r": ["lock", "iter", "close", "drain", "sel", "go"],
+    "s": ["stop", "lock", "iter", "close", "drain"],
 }
 
 
@@ -20,14 +21,14 @@ def rewrite(src):
     """Insert a scheduler yield before every lock acquisition, channel operation and map-range iteration of
     pool.go's CleanUp/Get/Return/Close, turn `go x.Close()` into a scheduled task, and route time.Now through
     the scheduler's clock.  Purely textual, statement by statement; nothing else is changed.
-    Returns (new source, {(fn, kind): count})."""
+    Returns (new source, {fn: [kinds in source order]})."""
     out = []
     counts = {}
     fn = None
     lines = src.split("\n")
 
     def hit(kind):
-        counts[(fn, kind)] = counts.get((fn, kind), 0) + 1
+        counts.setdefault(fn, []).append(kind)
 
     for idx, line in enumerate(lines):
         m = re.match(r"^func \(p \*P\) (\w+)\(", line)
@@ -93,22 +94,16 @@ def rewrite(src):
 
 def instrumented(c):
     src = open(os.path.join(REPO, POOL)).read()
-    new, counts = rewrite(src)
+    new, skel = rewrite(src)
     p = os.path.join(c.work, "pool_instrumented.go")
     open(p, "w").write(new)
-    ok = True
-    for k, v in sorted(EXPECT.items()):
-        got = counts.get(k, 0)
-        if got != v:
-            ok = False
-    for k in counts:
-        if k not in EXPECT:
-            ok = False
-    c.obligations.append(dict(
-        name="sync-point skeleton of pool.go matches the one the model was written for", kind="T1", ok=ok,
-        detail="" if ok else "expected %r got %r" % (sorted(EXPECT.items()), sorted(counts.items()))))
-    if not ok:
-        c.proof_broken.append("pool.go synchronisation skeleton changed: " + repr(sorted(counts.items())))
+    if not any(o.get("kind") == "T1" for o in c.obligations):
+        ok = skel == EXPECT
+        c.obligations.append(dict(
+            name="T1: ordered lock/channel-operation skeleton of pool.go CleanUp/Get/Return/Close equals the one Model/Pool.lean was written for",
+            kind="T1", ok=ok, detail="" if ok else "expected %r got %r" % (EXPECT, skel)))
+        if not ok:
+            c.proof_broken.append("pool.go synchronisation skeleton changed: " + repr(skel))
     return {os.path.join(REPO, POOL): p}
 
 
@@ -124,12 +119,12 @@ def run(c):
     if c.replay:
         harness(c, 1, replay_ops=c.replay.get("replay_ops") or [])
     elif c.thorough:
-        harness(c, 60000, name="main")
+        harness(c, 300000, name="main")
         c.seed += 7919
-        harness(c, 6000, race=True, name="race")
+        harness(c, 30000, race=True, name="race")
         c.seed -= 7919
     else:
-        harness(c, 5000)
+        harness(c, 8000)
 
     def search():
         c.seed += 1000
